@@ -133,9 +133,12 @@ func (s *Sim) FullDump() string {
 		}
 		sort.Strings(rk)
 		fmt.Fprintf(&b, " routes %v problems %v\n", rk, n.CmdProblems)
+		var pk []string
 		for _, x := range n.Eng.outbox {
-			fmt.Fprintf(&b, " parked %s %s\n", x.Kind, x.Name)
+			pk = append(pk, fmt.Sprintf(" parked %s %s\n", x.Kind, x.Name))
 		}
+		sort.Strings(pk) // the order of simultaneous fetches follows Go map iteration in the code under test
+		b.WriteString(strings.Join(pk, ""))
 	}
 	return b.String()
 }
